@@ -1,3 +1,3 @@
-(* _client.py :: ncrypt_protect_secret :: ('callarg', '_sync_get_key', 0, 5) :  l2 *)
+(* _client.py :: ncrypt_protect_secret :: shape kernel :  _sync_get_key(... 5: l2  [= -1] ...) *)
 Definition k_onl_prot_arg5  : Z :=
-  (- 1).
+  (-1).
